@@ -283,11 +283,32 @@ fn check(ctx: &Ctx) -> i32 {
         }
         check_list(&refs, &reqs, &res, l);
     });
+    // shared buckets: a pattern-less rule with several initiator domains is filed once per domain
+    // (one Arc in several buckets, which the optimiser must leave alone) next to every subset of
+    // rules that the bucket of one of those domains owns alone
+    let shared = ["*$script,domain=example.com|ads.net", "$image,domain=example.com|tracker.co.uk", "*$domain=example.com|ads.net|tracker.co.uk", "@@*$script,domain=example.com|ads.net"];
+    let owned = ["/foo$image,domain=example.com", "/bar$image,domain=example.com", "ads$script,domain=example.com", "*$font,domain=example.com", "@@/foo$script,domain=example.com", "/foo/bar$script,domain=example.com"];
+    ctx.bound("shared_bucket", json!({"shared_rules": shared, "owned_rules": owned}));
+    let shared_reqs: Vec<Req> = vh::alpha::requests(false, true).into_iter().filter(|r| ["script", "image", "font", "other"].contains(&r.ty) && (r.source.contains("example.com") || r.source.contains("://ads.net")) && r.url.starts_with("https://")).collect();
+    ctx.bound("shared_bucket_requests", shared_reqs.len());
+    ctx.par_range("shared buckets", (shared.len() as u64) << owned.len(), 4, |i, l| {
+        let res = ResourceStorage::from_resources(vh::net::std_resources());
+        let si = (i >> owned.len()) as usize;
+        let mut rules: Vec<&str> = owned.iter().enumerate().filter(|(k, _)| i & (1 << k) != 0).map(|(_, r)| *r).collect();
+        rules.insert(rules.len() / 2, shared[si]);
+        if si % 2 == 0 {
+            rules.push(shared[si + 1]); // two shared rules in the same buckets
+        }
+        check_list(&rules, &shared_reqs, &res, l);
+    });
     // the rule cube (vh::alpha): rules with the same option set are fusion candidates, rules whose
     // option sets differ in one respect must stay apart. Requests: the shared URL universe with two
     // (initiator, type) pairs per URL.
     let cube_reqs: Vec<Req> = vh::alpha::requests(false, false).into_iter().filter(|r| (r.ty == "script" && !r.source.is_empty()) || (r.ty == "image") || r.ty == "document")
-        .filter(|r| ["://ads.net/", "://a.ads.net/", "://example.com/", "://tracker.co.uk/", "://1.2.3.4/"].iter().any(|h| r.url.contains(h)))
+        .filter(|r| {
+            let hosts: &[&str] = if ctx.tier == vh::Tier::Quick { &["://ads.net/", "://example.com/"] } else { &["://ads.net/", "://a.ads.net/", "://example.com/", "://tracker.co.uk/", "://1.2.3.4/"] };
+            hosts.iter().any(|h| r.url.contains(h))
+        })
         .collect();
     let np = vh::alpha::CUBE_PATTERNS.len();
     let no = vh::alpha::CUBE_OPTIONS.len();
